@@ -24,6 +24,7 @@ func c02Attacker(k int) {
 	attPub, attPriv, _ := ed25519.GenerateKey(nil)
 	saves0 := w.db.saves
 	hist := ""
+	var salt, B []byte // from the accessory's last M2
 	for step := 0; step < k; step++ {
 		id := string(rune('0' + step))
 		var body []byte
@@ -39,13 +40,21 @@ func c02Attacker(k int) {
 			} else {
 				hist += "verify(A=any);"
 				A = verif.Bytes("A"+id, 384)
-				nz := false
-				for _, c := range A {
-					nz = verif.Or(nz, c != 0)
-				}
-				verif.Assume(nz)
+				verif.Assume(A[0] != 0) // minimal big-endian encoding (leading zero bytes are not modelled)
 			}
-			proof := verif.Bytes("M1-"+id, 64)
+			var proof []byte
+			if verif.Choice("proof"+id, 2) == 0 {
+				proof = verif.Bytes("M1-"+id, 64)
+			} else {
+				// a proof the adversary CAN compute: the M1 formula over public values and a
+				// session key it knows - none has been agreed, so the empty key
+				hist += "[proof over empty key]"
+				An := A
+				if verif.Choice("A"+id, 2) == 0 {
+					An = []byte{}
+				}
+				proof = rcM1(salt, An, B, nil)
+			}
 			body = eeTLV(pair.TagSequence, byte(3), pair.TagPublicKey, A, pair.TagProof, proof)
 		case 2: // M5 key exchange
 			var enc []byte
@@ -92,7 +101,10 @@ func c02Attacker(k int) {
 			hist += "junk;"
 			body = eeTLV(pair.TagSequence, verif.U8("junk-state"+id), pair.TagPairingMethod, verif.U8("junk-method"+id))
 		}
-		eePost(w.setup, "/pair-setup", remote, body)
+		rec, _ := eePost(w.setup, "/pair-setup", remote, body)
+		if t := rec.tlv(); t != nil && rec.status == 200 && t.GetByte(pair.TagSequence) == 2 {
+			salt, B = t.GetBytes(pair.TagSalt), t.GetBytes(pair.TagPublicKey)
+		}
 		verif.Fact("history", hist)
 		verif.Assert(w.db.saves == saves0 && len(w.db.ents) == 1, "no-pairing-stored-without-setup-code-proof")
 		if w.db.saves != saves0 {
